@@ -534,6 +534,38 @@ func (t *vfToolkit) SealRawCBC(from string, epoch uint16, seq uint64, ct uint8, 
 }
 
 // vfGenAuthMalformed: correctly protected records with malformed content, from `from`.
+// vfGenAuthNewMessages: complete handshake messages under the session's own keys, numbered from the receiver's next expected
+// message number on, each in fragments of 1000 bytes, `total` bytes altogether.
+func vfGenAuthNewMessages(r *rand.Rand, t *vfToolkit, from string, nextSeq uint16, total int, tickets bool) []vfHostile {
+	var out []vfHostile
+	const msgLen, fragLen = 8000, 1000
+	nmsg := total / msgLen
+	epoch, first := t.reserve(from, nmsg*(msgLen/fragLen)+8)
+	seq := first
+	for m := 0; m < nmsg; m++ {
+		typ := uint8([]int{0, 4, 11, 20, 24}[r.IntN(5)])
+		body := vfRandBytes(r, msgLen)
+		if tickets {
+			// lifetime, age_add, nonce<8>, ticket, no extensions
+			typ = 4
+			tl := msgLen - 4 - 4 - 1 - 8 - 2 - 2
+			copy(body, []byte{0, 0, 0x0e, 0x10})
+			body[8] = 8
+			body[17], body[18] = byte(tl>>8), byte(tl)
+			body[msgLen-2], body[msgLen-1] = 0, 0
+		}
+		for off := 0; off < msgLen; off += fragLen {
+			b, err := t.Seal(from, epoch, seq, 22, vfHSFragment(typ, msgLen, nextSeq+uint16(m), uint32(off), fragLen, body[off:off+fragLen]), r.Uint64())
+			seq++
+			if err == nil {
+				out = append(out, vfHostile{Data: b, Class: "authmalformed", Note: "complete handshake message after the handshake"})
+			}
+		}
+	}
+
+	return out
+}
+
 func vfGenAuthMalformed(r *rand.Rand, t *vfToolkit, from string, n int) []vfHostile {
 	var out []vfHostile
 	epoch, first := t.reserve(from, n+8)
